@@ -343,6 +343,40 @@ def basis(job):
                       z3.Or(lift(gw[0]) != lift(gm[0]), lift(gw[1]) != lift(gm[1])), R_PP, inputs, fallback=fb, congruence=["EXP", "LOG"], timeout=30)
         if n == 0:
             job.vacuity["failed"].append(tag)
+    # one mass-fraction Composition object handed to two mixtures with different molar masses: each call converts for its own mixture
+    mixa = build.sym_mixture(two_alpha=True, with_a=True)
+    mixb = build.sym_mixture(build.sym_component("3"), build.sym_component("4"), two_alpha=True, with_a=True, name="symmix2")
+    Ms = [m.first_component.molecular_weight for m in (mixa, mixb)] + [m.second_component.molecular_weight for m in (mixa, mixb)]
+    dom = build.domain_T(T) + build.domain_open01(w) + [lift(M) > 0 for M in Ms]
+
+    def run2():
+        c = build.comp(w, "weight")
+        ga = mixmod.calculate_activity_coefficients(T, mixa, c, "NRTL")
+        gb = mixmod.calculate_activity_coefficients(T, mixb, c, "NRTL")
+        fresh = mixmod.calculate_activity_coefficients(T, mixb, build.comp(build.S(build.x_of_w(w, mixb.first_component.molecular_weight, mixb.second_component.molecular_weight)), "molar"), "NRTL")
+        return gb, fresh
+
+    for leaf in job.explore(run2, dom):
+        if leaf.kind == "returned":
+            gb, fresh = leaf.value
+            job.prove("C04/basis/NRTL/same_object_second_mixture", dom + leaf.conds(), z3.Or(lift(gb[0]) != lift(fresh[0]), lift(gb[1]) != lift(fresh[1])),
+                      "vf.props.C04:concrete_reuse", {"T": T.t, "x": w.t}, fallback=[{"T": 333.15, "x": 0.1}], congruence=["EXP", "LOG"], timeout=30)
+
+
+def concrete_reuse(inp):
+    from pyvaporation.mixtures import Mixtures as _M
+    T, x = inp.get("T"), inp.get("x")
+    if T is None or x is None or not (273 < T < 400 and 0 < x < 1):
+        T, x = 333.15, 0.1
+    bad = []
+    for model in ("NRTL", "UNIQUAC"):
+        c = mixmod.Composition(x, "weight")
+        mixmod.get_partial_pressures(T, _M.H2O_MeOH, c, model)
+        got = mixmod.get_partial_pressures(T, _M.H2O_EtOH, c, model)
+        want = mixmod.get_partial_pressures(T, _M.H2O_EtOH, mixmod.Composition(x, "weight"), model)
+        if not (close(got[0], want[0], 1e-9) and close(got[1], want[1], 1e-9)):
+            bad.append("%s: partial pressures of H2O_EtOH for a mass-fraction object used with H2O_MeOH before: %r, for a fresh object %r" % (model, tuple(map(float, got)), tuple(map(float, want))))
+    return {"ok": not bad, "detail": "; ".join(bad), "inputs": inp}
 
 
 def jobs(tier):
